@@ -108,7 +108,7 @@ class RandomPolicy(BaseScheduler):
     """Arbitrary well-typed decisions (seeded): place now / in the future / on a pool
     that may not fit, leave unplaced, or cancel. Exercises every handler path."""
 
-    def __init__(self, rng, lookahead=0, retract=False, release_taskgraphs=False, cancel_prob=0.05, batch_prob=0.0, _flags=None):
+    def __init__(self, rng, lookahead=0, retract=False, release_taskgraphs=False, cancel_prob=0.05, batch_prob=0.0, delays=None, _flags=None):
         super().__init__(
             preemptive=False,
             runtime=et(0),
@@ -123,6 +123,7 @@ class RandomPolicy(BaseScheduler):
         # under one BatchStrategy, which is kept across invocations so that late members can join a batch
         self._batch_prob = batch_prob
         self._batches = {}
+        self._delays = list(delays) if delays else [0, 0, 0, 1, 3]
 
     def schedule(self, sim_time, workload, worker_pools):
         tasks = workload.get_schedulable_tasks(
@@ -157,7 +158,7 @@ class RandomPolicy(BaseScheduler):
                     strat, pool, batch_worker, _n = self._batches[key]
                 else:
                     batch_worker = None
-                delay = self._rng.choice([0, 0, 0, 1, 3])
+                delay = self._rng.choice(self._delays)
                 worker_id = None
                 if batch_worker is not None and self._rng.random() < 0.8:
                     worker_id = batch_worker
@@ -247,6 +248,7 @@ class Run:
                 release_taskgraphs=f["release_taskgraphs"],
                 cancel_prob=pol.get("cancel_prob", 0.05),
                 batch_prob=pol.get("batch_prob", 0.0),
+                delays=pol.get("delays"),
                 _flags=self.flags,
             )
         else:
@@ -309,6 +311,7 @@ class Run:
         return {
             "sid": sid,
             "batch": isinstance(st, BatchStrategy),
+            "bid": st.id if isinstance(st, BatchStrategy) else None,
             "bs": st.batch_size,
             "rt": us(st.runtime),
             "req": [[r.name, rid_back(r.id), q] for r, q in st.resources._resource_vector.items()],
@@ -528,7 +531,9 @@ class Run:
                 ok, dem, cap = demand_ok(worker)
                 elsewhere = [live_workers[id(w)] for p in run.pools.worker_pools for w in p.workers if w is not worker and task in w._placed_tasks]
                 run.mon.append({"ev": "place", "t": run.label(task), "w": list(live_workers[id(worker)]), "ok": ok, "demand": dem, "capacity": cap,
-                                "elsewhere": [list(x) for x in elsewhere], "now": us(run.sim._simulator_time)})
+                                "elsewhere": [list(x) for x in elsewhere], "now": us(run.sim._simulator_time),
+                                "batch": execution_strategy.id if isinstance(execution_strategy, BatchStrategy) else None,
+                                "batch_size": execution_strategy.batch_size})
             return r
 
         def remove(worker, current_time, task):
